@@ -65,3 +65,85 @@ CHECKS['C15'] = (
     'changes land between polls only (no real-thread interleavings); a requested non-final state held for less than one '
     'poll interval is not demanded to be seen; a loop spinning without any time call cannot be interrupted',
     'DESIGN.md 4/C15, A.3')
+EXEC_TB = ('trusted base: executor assembly (mt.Thread recorded and run under the baton, mt.Lock -> yielding FakeLock, '
+           'sp.Popen -> FakeProc, queue/time/launcher/resource manager faked, ownership dict with yield points), '
+           'thread switches only at yield points; in-memory transport; get_version shim')
+CHECKS['C07'] = (
+    'property-based testing (Hypothesis, seeded) of executor schedules under a deterministic cooperative scheduler + '
+    'systematic enumeration (one-task interleavings, preemption sweep of every activity pair) against an exactly-once '
+    'oracle over the transport event log',
+    'random and systematic search over interleavings of intake, the real watcher loop, the real timeout watcher and '
+    'cancel handlers x launch fault points x exit codes x timeouts through the real Popen (and NOOP) executor; per '
+    'accepted task: start announced once, handed on exactly once with a truthful outcome, released exactly once, nothing '
+    'left behind; no counterexample in the explored domain, coverage measured; not a proof',
+    EXEC_TB, 'DESIGN.md 4/C07')
+CHECKS['C09'] = (
+    'property-based testing (Hypothesis, seeded) of launcher histories: per-launcher CLI interpreters as oracle, '
+    'differential history-independence against a fresh instance',
+    'random search over 17 launch-method names x MPI flavours / help answers / slurm versions x placements (1-64 ranks, '
+    '1-50 nodes, uneven, non-contiguous cores, above the 42 host/node thresholds) x 1-5 task histories through the real '
+    'launch-method classes and find_launcher; command + host/rank/node/ERF files interpreted and compared with the '
+    'placement; no counterexample beyond the listed findings in the explored domain, coverage measured; not a proof',
+    TB + '; launcher CLI semantics as modelled in vlib/c09_cli.py (MPT per-host -np, PALS --ppn fill, ibrun host-list '
+    'offset); LaunchMethod.__init__ replaced (in-memory registry, direct init_from_scratch with generated machine '
+    'answers); PRTE DVM start-up not run; JSRUN slots from a hollow ContinuousJsrun', 'DESIGN.md 4/C09, A.4')
+CHECKS['C12'] = (
+    'property-based testing (Hypothesis, seeded): stateful op histories through the real client-side '
+    'schedulers against a model of pilot roles, notified pilot states and per-pilot usage',
+    'random search over histories (bulk submits with named/unnamed tasks, add/remove/re-add of pilots, '
+    'pilot and task state notifications incl. finals in any order, traffic of a second task manager) driven '
+    'through the real RoundRobin and Backfilling components (registered work input, control_cb, state '
+    'callback) over in-memory transport; every task put on TMGR_STAGING_INPUT_QUEUE is checked for '
+    'exactly-once, pilot eligibility, sandboxes, round-robin balance, backfilling window / high-water mark / '
+    'usage return; no counterexample in the explored domain, coverage measured; not a proof',
+    TB + '; operations are delivered atomically in history order (no interleaving inside one component '
+    'method); re-adds use the pilot-dict form of add_pilots; the no-loss and usage clauses read the '
+    'scheduler-private _wait_pool/_early/info',
+    'DESIGN.md 4/C12')
+CHECKS['C14'] = (
+    'property-based testing (Hypothesis, seeded) of pilot notification histories and of agent termination-cause orders against reference models, plus exhaustive enumeration of _pilot_state_progress (9x9), of all orderings of <=3 termination events (792 runs) and of the killme.signal shell mapping',
+    'random search over batches of pilot state notifications (gaps, duplicates, reordering, late non-finals, contradictory finals, unknown uids, 1-3 pilots) through the real pubsub -> PilotManager._state_sub_cb/_update_pilot -> Pilot._update -> pilot-/manager-level callbacks, with the tmgr scheduler as second consumer; and over orders of runtime reached / cancel naming this or another pilot / terminate / stop / loop end through the real Agent_0._check_lifetime (virtual clock), control path, stop and finalize, judged on killme.signal = published state = state of an occurred cause (single cause strict); no counterexample in the explored domain, coverage measured; not a proof',
+    TB + '; not reached: bootstrap_0.sh as a whole (only its killme.signal -> final_state lines are executed with bash), agent death without finalize, Agent_0.initialize; a lone terminate/stop accepts CANCELED or FAILED; loss of the rest of a batch after an exception is not demanded',
+    'DESIGN.md 4/C14, A.1')
+CHECKS['C17'] = (
+    'exhaustive enumeration of all shipped (resource, schema) pairs plus property-based testing (Hypothesis, seeded) '
+    'of pilot sizes against the integer sizing model A.6',
+    'every label of every configs/resource_*.json x each of its schemas (63 configs, 120 pairs) resolved through the '
+    'real Session.get_resource_config and the four real factories run up to instantiation (resource manager, every '
+    'launch method incl. order entries, agent scheduler, executor) and the agent config loader; every pair x a fixed '
+    '12-point (48 thorough) size/RADICAL_SMT grid and random sizes (nodes 1-64 +0-2 backup, cores/gpus at k*node+-d, '
+    'GPU-bound mixes, SMT unset/2/4) through real PilotDescription -> Pilot -> _prepare_pilot; job description and '
+    'the staged agent_0.cfg compared with the model computed from the raw json; exhaustive over configs x schemas, '
+    'random over sizes; no counterexample in the explored domain, coverage measured; not a proof for sizes',
+    TB + '; hollow PMGRLaunchingComponent (__new__ + fields), first lines of _start_pilot_bulk copied; factories '
+    'stopped at instantiation by a temporary base-class __new__; explicit sandbox (no workdir shell-out); not reached: '
+    'launch method / resource manager initialisation, staging, job submission; platforms without configured node size '
+    'only checked for pass-through and job/agent agreement',
+    'DESIGN.md 4/C17, A.6')
+CHECKS['C19'] = (
+    'property-based testing (Hypothesis, seeded): idempotence / frame / round-trip relations on generated '
+    'descriptions against tables written from the docstrings; differential test of encoded function payloads '
+    '(direct call vs real raptor dispatcher); round-trip relations on slot lists in every accepted format',
+    'random search over 11 task modes x subsets of documented current+deprecated attributes with typed/castable values '
+    '(TaskDescription, PilotDescription incl. nested services): verify idempotent, deprecated->replacement, required-per-mode '
+    'ValueError iff violated, as_dict->ctor (direct and over msgpack) equal; 33 callables x 5 encoders x JSON-like/tuple/bytes/set '
+    'arguments through TaskDescription->wire->Worker._dispatch_func compared with the direct call (value or exception type); '
+    '7 slot formats through convert_slots_to_old/_new/Slot incl. new(old(x)), old(new(y)); no counterexample beyond the listed '
+    'finding in the explored domain, coverage measured; not a proof',
+    TB + '; raptor Worker built hollow (constructor not run), decode happens in the encoding process; TypedDict `==` is vacuous '
+    '(empty base dict) so equality = type-strict as_dict comparison; precedence between a deprecated name and its replacement '
+    'and the gpu_process_type/gpu_thread_type -> gpu_type source are undocumented/contradictory: either accepted; wrong-typed '
+    'values and undocumented names outside the domain; no Atheris target',
+    'DESIGN.md 4/C19')
+CHECKS['C20'] = (
+    'property-based testing (Hypothesis, seeded): payload-DSL differential oracle on the real raptor dispatchers '
+    '(result tuple, os.environ, process environment, streams); model-based request/completion histories through the '
+    'real DefaultWorker over fake multiprocessing with an occupancy/exactly-one-result oracle; routing and '
+    'result-accounting histories through the real Master and the agent scheduler\'s raptor forwarding',
+    'random search over payload programs x task modes x request sequences; over worker sizes x demands x outcomes '
+    '(ok/raise/timeout/late completion/spawn failure/process death) x completion orders x wait-point schedules; over '
+    'request streams of every mode x exit codes x delivery orders x queue (un)registration orders; no counterexample '
+    'in the explored domain, coverage measured; not a proof',
+    TB + '; multiprocessing of worker_default replaced by harness-stepped fakes (a child = when its target runs + what '
+    'join/is_alive/terminate report); scheduler placement stubbed (C01-C04); MPI workers and TASK_METH not reached',
+    'DESIGN.md 4/C20')
